@@ -89,6 +89,10 @@ def _one_run(out, prog, strat, drive, cuts, mix, tag, log_level=None, prev=None,
     if ref.strategy != strat:
         return ref          # (a strategy change inside construct_model would be overwritten below: not generated)
     h = Harness(prog)
+    import json
+    import zlib
+    # (costs a quarter of a second: in ~4% of the warn-and-pause cases, chosen by a hash of the case)
+    eager = pause and zlib.crc32(json.dumps([prog, drive, cuts, mix], sort_keys=True).encode()) % 24 == 5
 
     def sut_action(m, a):
         if a[0] == "set_strategy":
@@ -143,7 +147,14 @@ def _one_run(out, prog, strat, drive, cuts, mix, tag, log_level=None, prev=None,
                     err = h.run_piece(["run_up_to_incl", _jt(b, ck)])
                 else:
                     r = ref.run()
-                    err = h.run_piece(["start"])
+                    if r == "fault" and eager:
+                        # the user's thread resumes the moment it reads STOPPED, a STOP listener is still busy
+                        out.label("eager-resume-after-fault-pause")
+                        eager = False
+                        r = ref.run()
+                        err = h.start_eager_resume()
+                    else:
+                        err = h.run_piece(["start"])
                 if err is not None:
                     out.fail("run-raised-" + type(err).__name__, {"tag": tag, "err": repr(err)})
                 if r == "fault":
